@@ -9,7 +9,15 @@
 //
 //	{"begin":k}                       before round k
 //	{"fail":{...}}                    a call whose result differs from its solo result
+//	{"hang":{...}}                    no call completed for hangAfter while goroutines were running: where they block
+//	                                  (the worker then exits with status 4)
 //	{"end":rounds,"calls":n}          after the last round
+//
+// Every fortieth round (round 0 first) is a warm-versus-cold round: goroutines keep calling on a type that is already
+// in the cache while others make the first use of several hundred distinct types (a lock upgrade / a nested
+// read lock / a writer-preference deadlock needs a miss arriving during a hit). Every fortieth round (round 4 first)
+// is a deep-document round: several goroutines decode, at the same time, documents nested a few thousand levels
+// deep on a recursive type, each inside the nesting limit on its own (per-call state kept on the shared codec).
 package main
 
 import (
@@ -19,7 +27,13 @@ import (
 	"fmt"
 	"net/url"
 	"os"
+	"regexp"
+	"runtime"
+	"sort"
+	"strings"
 	"sync"
+	"sync/atomic"
+	"time"
 
 	"github.com/pentops/j5/lib/j5codec"
 	"google.golang.org/protobuf/proto"
@@ -38,14 +52,107 @@ type outcome struct {
 	Err   string `json:"err,omitempty"`
 	Panic string `json:"panic,omitempty"`
 	Out   string `json:"out,omitempty"`
+
+	// raw: the bytes an encode call handed to its caller, RETAINED as they are (not copied) until the result is
+	// compared — after the goroutines of the round have joined, after further calls on the same or other codecs.
+	// A caller may keep what ProtoToJSON returned; a buffer that the codec reuses for a later call shows here.
+	raw []byte
+}
+
+// settled: the outcome with the retained bytes read now
+func (o outcome) settled() outcome {
+	if o.raw != nil {
+		o.Out, o.raw = string(o.raw), nil
+	}
+	return o
 }
 
 // same: class, error text / panic value and output are what the call returns alone
 func (o outcome) same(p outcome) bool {
+	o, p = o.settled(), p.settled()
 	return o.Err == p.Err && o.Panic == p.Panic && o.Out == p.Out
 }
 
+func (o outcome) MarshalJSON() ([]byte, error) {
+	s := o.settled()
+	return json.Marshal(struct {
+		Err   string `json:"err,omitempty"`
+		Panic string `json:"panic,omitempty"`
+		Out   string `json:"out,omitempty"`
+	}{s.Err, s.Panic, s.Out})
+}
+
+// progress counts completed calls; running is non-zero while the goroutines of a round run
+var progress, running atomic.Int64
+var where atomic.Value // what is running, for the hang report
+
+const hangAfter = 10 * time.Second
+
+var goroutineHead = regexp.MustCompile(`^goroutine (\d+) \[([^\]]*)\]:`)
+
+// blockedSummary condenses a full goroutine dump: per (wait reason, innermost pentops/j5 frame) the number of goroutines.
+func blockedSummary(dump string) []string {
+	count := map[string]int{}
+	for _, g := range strings.Split(dump, "\n\n") {
+		lines := strings.Split(g, "\n")
+		m := goroutineHead.FindStringSubmatch(lines[0])
+		if m == nil {
+			continue
+		}
+		reason := strings.Split(m[2], ",")[0]
+		frame := ""
+		for i := 1; i+1 < len(lines); i += 2 {
+			if strings.Contains(lines[i], "github.com/pentops/j5/") {
+				fn := lines[i]
+				if j := strings.LastIndex(fn, "("); j > 0 {
+					fn = fn[:j]
+				}
+				loc := strings.TrimSpace(lines[i+1])
+				if j := strings.Index(loc, " +0x"); j > 0 {
+					loc = loc[:j]
+				}
+				if j := strings.LastIndex(loc, "/"); j >= 0 {
+					loc = loc[j+1:]
+				}
+				frame = strings.TrimPrefix(fn, "github.com/pentops/j5/") + " " + loc
+				break
+			}
+		}
+		if frame == "" || reason == "running" || reason == "runnable" {
+			continue
+		}
+		count[reason+" in "+frame]++
+	}
+	var out []string
+	for k, n := range count {
+		out = append(out, fmt.Sprintf("%d x %s", n, k))
+	}
+	sort.Strings(out)
+	return out
+}
+
+func watchdog(enc *json.Encoder) {
+	last, since := progress.Load(), time.Now()
+	for {
+		time.Sleep(200 * time.Millisecond)
+		p := progress.Load()
+		if p != last || running.Load() == 0 {
+			last, since = p, time.Now()
+			continue
+		}
+		if time.Since(since) > hangAfter {
+			buf := make([]byte, 4<<20)
+			buf = buf[:runtime.Stack(buf, true)]
+			w, _ := where.Load().(map[string]any)
+			_ = enc.Encode(map[string]any{"hang": map[string]any{"running": w, "completed_calls": p, "blocked": blockedSummary(string(buf)),
+				"no_call_completed_for": hangAfter.String()}})
+			os.Exit(4)
+		}
+	}
+}
+
 func doCall(cd *j5codec.Codec, b *cdesc.Built, enc map[int]string, c call) (o outcome) {
+	defer progress.Add(1)
 	defer func() {
 		if r := recover(); r != nil {
 			o = outcome{Panic: fmt.Sprint(r)}
@@ -57,7 +164,7 @@ func doCall(cd *j5codec.Codec, b *cdesc.Built, enc map[int]string, c call) (o ou
 		if err != nil {
 			return outcome{Err: err.Error()}
 		}
-		return outcome{Out: string(out)}
+		return outcome{raw: out}
 	case 4:
 		msg, err := b.PopulateWithAny(c.Node, c.Target, 1)
 		if err != nil {
@@ -67,7 +174,7 @@ func doCall(cd *j5codec.Codec, b *cdesc.Built, enc map[int]string, c call) (o ou
 		if err != nil {
 			return outcome{Err: err.Error()}
 		}
-		return outcome{Out: string(out)}
+		return outcome{raw: out}
 	case 2:
 		msg := b.New(c.Node)
 		if err := cd.JSONToProto([]byte(enc[c.Node]), msg); err != nil {
@@ -85,6 +192,156 @@ func doCall(cd *j5codec.Codec, b *cdesc.Built, enc map[int]string, c call) (o ou
 	}
 }
 
+// goAll runs the bodies as goroutines released together and waits for them; the watchdog is armed meanwhile.
+func goAll(desc map[string]any, bodies []func()) {
+	where.Store(desc)
+	gate := make(chan struct{})
+	var wg sync.WaitGroup
+	for _, body := range bodies {
+		body := body
+		wg.Add(1)
+		go func() {
+			defer wg.Done()
+			<-gate
+			body()
+		}()
+	}
+	running.Store(1)
+	close(gate)
+	wg.Wait()
+	running.Store(0)
+}
+
+// warmCold: readers keep encoding a warm type while writers make the first use of nCold distinct types, all on one codec.
+func warmCold(enc *json.Encoder, seed uint64, k int, r *vh.Rand) int {
+	nCold := r.Range(150, 300)
+	u := &cdesc.Universe{Tag: fmt.Sprintf("r%dx%dwc", seed, k)}
+	u.Nodes = append(u.Nodes, cdesc.Node{Kind: cdesc.KMsg, Refs: []int{1}, Shape: []int{cdesc.FSingle}}, cdesc.Node{Kind: cdesc.KMsg, Refs: []int{}, Shape: []int{}})
+	for i := 0; i < nCold; i++ {
+		nd := cdesc.Node{Kind: cdesc.KMsg, Refs: []int{}, Shape: []int{}}
+		if i%3 == 0 {
+			nd.Refs, nd.Shape = []int{1}, []int{cdesc.FSingle}
+		}
+		u.Nodes = append(u.Nodes, nd)
+	}
+	b, err := u.Build()
+	if err != nil {
+		fmt.Fprintln(os.Stderr, "build:", err)
+		os.Exit(3)
+	}
+	solo := make([]outcome, len(u.Nodes))
+	for i := range u.Nodes {
+		solo[i] = doCall(j5codec.NewCodec(), b, nil, call{Kind: 1, Node: i}).settled()
+	}
+	shared := j5codec.NewCodec()
+	if o := doCall(shared, b, nil, call{Kind: 1, Node: 0}); !o.same(solo[0]) { // warm it
+		_ = enc.Encode(map[string]any{"fail": map[string]any{"round": k, "mode": "warm-cold", "call": call{Kind: 1, Node: 0}, "got": o, "want": solo[0]}})
+	}
+	nReaders, nWriters := r.Range(4, 8), r.Range(2, 3)
+	var done atomic.Int64
+	type miss struct {
+		g    int
+		c    call
+		got  outcome
+		want outcome
+	}
+	misses := make([][]miss, nReaders+nWriters)
+	var bodies []func()
+	for g := 0; g < nReaders; g++ {
+		g := g
+		bodies = append(bodies, func() {
+			for it := 0; it < 200000 && done.Load() < int64(nWriters); it++ {
+				c := call{Kind: 1, Node: it % 2} // both warm after the first call
+				if o := doCall(shared, b, nil, c); !o.same(solo[c.Node]) && len(misses[g]) < 2 {
+					misses[g] = append(misses[g], miss{g, c, o, solo[c.Node]})
+				}
+			}
+		})
+	}
+	for w := 0; w < nWriters; w++ {
+		w := w
+		bodies = append(bodies, func() {
+			defer done.Add(1)
+			for i := 2 + w; i < len(u.Nodes); i += nWriters {
+				c := call{Kind: 1, Node: i}
+				if o := doCall(shared, b, nil, c); !o.same(solo[i]) && len(misses[nReaders+w]) < 2 {
+					misses[nReaders+w] = append(misses[nReaders+w], miss{nReaders + w, c, o, solo[i]})
+				}
+			}
+		})
+	}
+	before := progress.Load()
+	goAll(map[string]any{"round": k, "mode": "warm-cold", "readers_on_warm_types": nReaders, "writers_first_use": nWriters, "cold_types": nCold,
+		"how": "worker -seed S -start ROUND -rounds ROUND+1"}, bodies)
+	for _, ml := range misses {
+		for _, m := range ml {
+			_ = enc.Encode(map[string]any{"fail": map[string]any{"round": k, "mode": "warm-cold", "goroutine": m.g, "call": m.c, "got": m.got, "want": m.want,
+				"readers_on_warm_types": nReaders, "writers_first_use": nWriters, "cold_types": nCold}})
+		}
+	}
+	return int(progress.Load() - before)
+}
+
+// deepDecode: a recursive type; documents nested `depth` levels, each inside the decoder's nesting limit; several
+// goroutines decode them at the same time on one codec (also the package-level Global), each result compared with the solo result.
+func deepDecode(enc *json.Encoder, seed uint64, k int, r *vh.Rand) int {
+	u := &cdesc.Universe{Tag: fmt.Sprintf("r%dx%ddd", seed, k), Nodes: []cdesc.Node{{Kind: cdesc.KMsg, Refs: []int{0}, Shape: []int{cdesc.FSingle}}}}
+	b, err := u.Build()
+	if err != nil {
+		fmt.Fprintln(os.Stderr, "build:", err)
+		os.Exit(3)
+	}
+	ng := r.Range(4, 5)
+	depth := r.Range(2600, 3600)
+	doc := strings.Repeat(`{"r0":`, depth) + `{"label":"x"}` + strings.Repeat("}", depth)
+	docs := map[int]string{0: doc}
+	c := call{Kind: 2, Node: 0}
+	want := doCall(j5codec.NewCodec(), b, docs, c).settled()
+	if want.Err != "" || want.Panic != "" {
+		fmt.Fprintf(os.Stderr, "solo decode of a document nested %d levels (limit 10000) fails: %+v\n", depth, want)
+		os.Exit(3)
+	}
+	shared, mode := j5codec.NewCodec(), "deep-decode"
+	if k%80 == 44 {
+		shared, mode = j5codec.Global, "deep-decode-global"
+	}
+	type miss struct {
+		g, it int
+		got   outcome
+	}
+	misses := make([][]miss, ng)
+	var bodies []func()
+	const iters = 2
+	for g := 0; g < ng; g++ {
+		g := g
+		bodies = append(bodies, func() {
+			for it := 0; it < iters; it++ {
+				if o := doCall(shared, b, docs, c); !o.same(want) && len(misses[g]) < 1 {
+					misses[g] = append(misses[g], miss{g, it, o})
+				}
+			}
+		})
+	}
+	before := progress.Load()
+	goAll(map[string]any{"round": k, "mode": mode, "goroutines": ng, "nesting": depth}, bodies)
+	short := func(o outcome) outcome {
+		if len(o.Out) > 80 {
+			o.Out = o.Out[:80] + "..."
+		}
+		if len(o.Err) > 200 {
+			o.Err = o.Err[:60] + " ... " + o.Err[len(o.Err)-120:]
+		}
+		return o
+	}
+	for _, ml := range misses {
+		for _, m := range ml {
+			_ = enc.Encode(map[string]any{"fail": map[string]any{"round": k, "mode": mode, "universe": u, "goroutines": ng, "iterations": iters,
+				"document": fmt.Sprintf("%d x {\"r0\": around {\"label\":\"x\"}", depth), "goroutine": m.g, "iteration": m.it, "call": c, "got": short(m.got), "want": short(want)}})
+		}
+	}
+	return int(progress.Load() - before)
+}
+
 func main() {
 	seed := flag.Uint64("seed", 1, "seed")
 	start := flag.Int("start", 0, "first round")
@@ -92,10 +349,19 @@ func main() {
 	show := flag.Bool("show", false, "print the solo outcomes of the calls that carry an Any (stderr)")
 	flag.Parse()
 	enc := json.NewEncoder(os.Stdout)
+	go watchdog(enc)
 	total := 0
 	for k := *start; k < *rounds; k++ {
 		_ = enc.Encode(map[string]any{"begin": k})
 		r := vh.NewRand(*seed).Fork(fmt.Sprintf("race-round-%d", k))
+		switch k % 40 {
+		case 0:
+			total += warmCold(enc, *seed, k, r)
+			continue
+		case 4:
+			total += deepDecode(enc, *seed, k, r)
+			continue
+		}
 		u, why := cdesc.GenUniverse(r, fmt.Sprintf("r%dx%d", *seed, k))
 		if k%3 == 1 {
 			u, why = cdesc.GenRich(r, fmt.Sprintf("r%dx%d", *seed, k))
@@ -135,12 +401,25 @@ func main() {
 		// solo results, each on a fresh codec
 		encoded := map[int]string{}
 		for _, i := range ms {
-			o := doCall(newCodec(), b, nil, call{Kind: 1, Node: i})
+			o := doCall(newCodec(), b, nil, call{Kind: 1, Node: i}).settled()
 			if (o.Err != "" || o.Panic != "") != !u.Good(i) {
 				fmt.Fprintf(os.Stderr, "solo encode of node %d (reflectable: %v): %+v\n", i, u.Good(i), o)
 				os.Exit(3)
 			}
-			encoded[i] = o.Out
+			encoded[i] = o.settled().Out // read at once: the reference encoding, also the input of the decode calls
+		}
+		// two consecutive encodes on one goroutine and one fresh codec, the first result read only after the second call
+		if len(ms) >= 1 {
+			cd := newCodec()
+			i, j := ms[0], ms[len(ms)-1]
+			first := doCall(cd, b, nil, call{Kind: 1, Node: i})
+			second := doCall(cd, b, nil, call{Kind: 1, Node: j})
+			total += 2
+			if f := first.settled(); f.Err == "" && f.Panic == "" && f.Out != encoded[i] {
+				_ = enc.Encode(map[string]any{"fail": map[string]any{"round": k, "mode": "retained-result", "shape": why, "universe": u,
+					"calls": []call{{Kind: 1, Node: i}, {Kind: 1, Node: j}}, "what": "the bytes returned by the first encode, read after the second encode on the same goroutine and codec",
+					"got": f, "want": outcome{Out: encoded[i]}, "second": second}})
+			}
 		}
 		ng := r.Range(2, 16)
 		hot := vh.Pick(r, ms)
@@ -178,12 +457,15 @@ func main() {
 				}
 			}()
 		}
+		where.Store(map[string]any{"round": k, "mode": mode, "shape": why, "universe": u, "goroutines": ng, "calls": calls})
+		running.Store(1)
 		close(gate)
 		wg.Wait()
+		running.Store(0)
 		for g := range calls {
 			for i, c := range calls[g] {
 				total++
-				want := doCall(newCodec(), b, encoded, c)
+				want := doCall(newCodec(), b, encoded, c).settled()
 				if !got[g][i].same(want) {
 					_ = enc.Encode(map[string]any{"fail": map[string]any{
 						"round": k, "mode": mode, "shape": why, "universe": u, "goroutines": ng, "calls": calls,
@@ -206,11 +488,11 @@ func main() {
 			solo := map[call]outcome{}
 			for _, i := range ms {
 				for kind := 1; kind <= 3; kind++ {
-					solo[call{Kind: kind, Node: i}] = doCall(newCodec(), b, encoded, call{Kind: kind, Node: i})
+					solo[call{Kind: kind, Node: i}] = doCall(newCodec(), b, encoded, call{Kind: kind, Node: i}).settled()
 				}
 				if anyRound {
 					for _, j := range ms {
-						solo[call{Kind: 4, Node: i, Target: j}] = doCall(newCodec(), b, encoded, call{Kind: 4, Node: i, Target: j})
+						solo[call{Kind: 4, Node: i, Target: j}] = doCall(newCodec(), b, encoded, call{Kind: 4, Node: i, Target: j}).settled()
 						if *show {
 							fmt.Fprintf(os.Stderr, "round %d: node %d (good %v) any of %d (good %v): %+v\n", k, i, u.Good(i), j, u.Good(j), solo[call{Kind: 4, Node: i, Target: j}])
 						}
@@ -247,8 +529,11 @@ func main() {
 					}
 				}()
 			}
+			where.Store(map[string]any{"round": k, "mode": "storm", "shape": why, "universe": u, "goroutines": ngs, "iterations": iters})
+			running.Store(1)
 			close(gate)
 			wg.Wait()
+			running.Store(0)
 			total += ngs * iters
 			for _, ml := range misses {
 				for _, m := range ml {
